@@ -6,6 +6,7 @@
 #include <asl/Mutex.h>
 #include <asl/Array.h>
 #include <atomic>
+#include <climits>
 #include <vector>
 
 using namespace asl;
@@ -124,8 +125,38 @@ static void mode_pfor_mt(vf::Ctx& c)
 	if (c.want_sample()) c.sample(c.curdesc());
 }
 
+// ranges that end at INT_MAX or start at INT_MIN: every index once, no other index, and the call returns
+static void checkPforExtreme(vf::Ctx& c, int i0, int i1, int nth)
+{
+	int len = i1 - i0;   // small by construction
+	std::vector<std::atomic<int> > counts((size_t)(len > 0 ? len : 1));
+	for (auto& x : counts) x = 0;
+	std::atomic<int> outside(0);
+	std::atomic<int>* cp = counts.data();
+	auto f = [&, cp](int i) {
+		long long d = (long long)i - i0;
+		if (d < 0 || d >= len) { if (outside++ > 1000000) _exit(97); return; }
+		cp[d]++;
+	};
+	Thread::parallel_for(i0, i1, f, nth);
+	if (outside) c.fail("parallel_for.index-outside-range-invoked", vf::fmt("%d calls outside [%d,%d) with %d threads", (int)outside, i0, i1, nth));
+	for (int d = 0; d < len; d++) if (counts[d] != 1) { c.fail(counts[d] == 0 ? "parallel_for.index-not-invoked" : "parallel_for.index-invoked-twice", vf::fmt("index %d invoked %d times (range [%d,%d), %d threads)", i0 + d, (int)counts[d], i0, i1, nth)); break; }
+}
+
 static void mode_pfor_big(vf::Ctx& c)
 {
+	if (c.idx % 4 == 1) {
+		int len = c.rng.range(0, 60), nth = c.rng.range(1, 16);
+		bool top = c.rng.chance(0.6);
+		int i0 = top ? INT_MAX - len - (c.rng.chance(0.5) ? 0 : c.rng.range(0, 3)) : INT_MIN + c.rng.range(0, 3);
+		int i1 = i0 + len;
+		c.desc(vf::fmt("parallel_for(%d, %d, f, %d) at the end of the int range", i0, i1, nth));
+		checkPforExtreme(c, i0, i1, nth);
+		c.count("pfor.extreme_ranges");
+		c.distinct(((uint64_t)(uint32_t)i0 << 16) ^ ((uint64_t)len << 8) ^ (uint64_t)nth);
+		if (c.want_sample()) c.sample(c.curdesc());
+		return;
+	}
 	int i0 = c.rng.range(-2000, 2000), len = c.rng.chance(0.3) ? c.rng.range(0, 70) : c.rng.range(0, 2000), nth = c.rng.chance(0.5) ? c.rng.range(1, 16) : c.rng.range(1, 64);
 	std::string how = setDelays(c, c.rng.chance(0.3) ? 128 : 0);
 	c.desc(vf::fmt("parallel_for(%d, %d, f, %d) %s", i0, i0 + len, nth, how.c_str()));
